@@ -37,10 +37,12 @@ func (o *optimizer) optimizeAllFiles(printer FilePrinter) {
 
 		// 1. optimize file
 		log.Printf("visit file: %s\n", f.Filename)
-		o.optimizeImports(f)
 		o.optimizeDelayCall()
 		// o.optimizeBindCall()
 		o.etaReduction()
+		// after the reductions: replacing a literal by its callee can remove
+		// the last use of a package in the file
+		o.optimizeImports(f)
 
 		// 2. write file
 		log.Printf("write file: %s\n", f.Filename)
